@@ -9,6 +9,7 @@ import sympy
 from wadler_lindig import pformat
 
 from mxlpy.meta.sympy_tools import fn_to_sympy, list_of_symbols
+from mxlpy.types import Derived
 
 if TYPE_CHECKING:
     from mxlpy.model import Model
@@ -53,10 +54,14 @@ def to_symbolic_model(model: Model) -> SymbolicModel:
             strict=True,
         )
     )
+    # All parameters, the ones defined by initial assignments have been evaluated
+    parameter_values = {
+        k: cache.all_parameter_values[k] for k in model.get_parameter_names()
+    }
     parameters: dict[str, sympy.Symbol] = dict(
         zip(
-            model.get_parameter_values(),
-            cast(list[sympy.Symbol], list_of_symbols(model.get_parameter_values())),
+            parameter_values,
+            cast(list[sympy.Symbol], list_of_symbols(parameter_values)),
             strict=True,
         )
     )
@@ -78,46 +83,60 @@ def to_symbolic_model(model: Model) -> SymbolicModel:
         )
     )
 
-    symbols: dict[str, sympy.Symbol | sympy.Expr] = variables | parameters | data  # type: ignore
+    symbols: dict[str, sympy.Symbol | sympy.Expr] = (
+        variables | parameters | data | {"time": sympy.Symbol("time")}  # type: ignore
+    )
 
-    # Insert derived into symbols
-    for k, v in model.get_raw_derived().items():
-        if (
-            expr := fn_to_sympy(v.fn, origin=k, model_args=[symbols[i] for i in v.args])
-        ) is None:
-            msg = f"Unable to parse derived value '{k}'"
-            raise ValueError(msg)
-        symbols[k] = expr
-
-    # Insert derived into reaction via args
+    # Insert derived values and rates in the order of their dependencies, derived
+    # values can depend on each other and on rates, however they were declared
+    raw_derived = model.get_raw_derived()
+    raw_reactions = model.get_raw_reactions()
     rxns: dict[str, sympy.Expr] = {}
-    for k, v in model.get_raw_reactions().items():
-        if (
-            expr := fn_to_sympy(v.fn, origin=k, model_args=[symbols[i] for i in v.args])
-        ) is None:
-            msg = f"Unable to parse reaction '{k}'"
-            raise ValueError(msg)
-        rxns[k] = expr
+    for k in cache.order:
+        if (der := raw_derived.get(k)) is not None:
+            if (
+                expr := fn_to_sympy(
+                    der.fn, origin=k, model_args=[symbols[i] for i in der.args]
+                )
+            ) is None:
+                msg = f"Unable to parse derived value '{k}'"
+                raise ValueError(msg)
+            symbols[k] = expr
+        elif (rxn := raw_reactions.get(k)) is not None:
+            if (
+                expr := fn_to_sympy(
+                    rxn.fn, origin=k, model_args=[symbols[i] for i in rxn.args]
+                )
+            ) is None:
+                msg = f"Unable to parse reaction '{k}'"
+                raise ValueError(msg)
+            symbols[k] = expr
+            rxns[k] = expr
 
-    # Go through stoichiometries & derived stoichiometries
-    eqs: dict[str, sympy.Expr] = {}
-    for cpd, stoich in cache.stoich_by_cpds.items():
-        for rxn, stoich_value in stoich.items():
-            eqs[cpd] = (
-                eqs.get(cpd, sympy.Float(0.0)) + sympy.Float(stoich_value) * rxns[rxn]  # type: ignore
-            )
-    for cpd, dstoich in cache.dyn_stoich_by_cpds.items():
-        for rxn, der in dstoich.items():
-            eqs[cpd] = eqs.get(cpd, sympy.Float(0.0)) + fn_to_sympy(
-                der.fn,
-                [symbols[i] for i in der.args] * rxns[rxn],  # type: ignore
-            )  # type: ignore
+    # Go through stoichiometries & derived stoichiometries. Keep the derived ones
+    # symbolic, so the equations hold for other parameter values as well
+    eqs: dict[str, sympy.Expr] = {k: sympy.Float(0.0) for k in variables}
+    for rxn_name, rxn in raw_reactions.items():
+        for cpd, factor in rxn.stoichiometry.items():
+            if isinstance(factor, Derived):
+                if (
+                    factor_expr := fn_to_sympy(
+                        factor.fn,
+                        origin=cpd,
+                        model_args=[symbols[i] for i in factor.args],
+                    )
+                ) is None:
+                    msg = f"Unable to parse stoichiometry of '{cpd}' in '{rxn_name}'"
+                    raise ValueError(msg)
+            else:
+                factor_expr = sympy.Float(factor)
+            eqs[cpd] = eqs.get(cpd, sympy.Float(0.0)) + factor_expr * rxns[rxn_name]  # type: ignore
 
     return SymbolicModel(
         variables=variables,
         parameters=parameters,
         eqs=[eqs[i] for i in cache.var_names],
         initial_conditions=model.get_initial_conditions(),
-        parameter_values=model.get_parameter_values(),
+        parameter_values=parameter_values,
         external=data | surrogates,
     )
